@@ -81,10 +81,10 @@ type Event struct {
 type FaultKind uint8
 
 const (
-	FNone FaultKind = iota
-	FErr            // return the sentinel error (constructors with an error result)
-	FNil            // return a nil instance
-	FPanic          // panic with PanicVals[PanicIdx]
+	FNone  FaultKind = iota
+	FErr             // return the sentinel error (constructors with an error result)
+	FNil             // return a nil instance
+	FPanic           // panic with PanicVals[PanicIdx]
 )
 
 // Fault plans one misbehaviour: the Nth invocation (0 = every) of constructor Ctor.
